@@ -319,8 +319,13 @@ class RedshiftBinningFactory:
         if not isinstance(comov_edges, units.Quantity):
             comov_edges = comov_edges * units.Mpc
 
-        edges = z_at_value(self.cosmology.comoving_distance, comov_edges).value
-        edges[0], edges[-1] = min, max  # avoid rounding errors at the limits
+        # invert only the inner edges, the outer ones are known exactly
+        edges = np.empty(num_bins + 1)
+        edges[0], edges[-1] = min, max
+        if num_bins > 1:
+            edges[1:-1] = z_at_value(
+                self.cosmology.comoving_distance, comov_edges[1:-1]
+            ).value
         return Binning(edges, closed=closed)
 
     def logspace(
